@@ -18,7 +18,8 @@ NONTRIVIAL = WITNESSES
 
 COLS = ["MinTemp", "MaxTemp", "Precipitation", "ReferenceET", "Date"]
 EXTRA = ["none", "front", "middle", "end", "nan_gaps", "clash_names"]
-INDEX = ["range", "shift1000", "reversed_labels", "strings", "date"]
+INDEX = ["range", "shift1000", "reversed_labels", "strings", "date", "restart_yearly", "constant", "concat31"]
+NONUNIQUE = ["restart_yearly", "constant", "concat31"]   # repeated labels: yearly files / extra rows concatenated without ignore_index, a station id
 ROWS = ["none", "lead400", "trail400", "both", "lead_gap", "lead_dup", "lead_labels", "trail_gap"]
 CROPS = {
     "calendar": lambda: A.to_spec(A._b(crop="maize.2", win="w2", word="mix", irr="smt")),
@@ -49,6 +50,9 @@ def scenarios(tier, seed=0):
                 yield {"crop": ck, "perm": list(ident), "extra": "none", "index": ix, "rows": "none"}
             for r in ROWS[1:]:
                 yield {"crop": ck, "perm": list(ident), "extra": "none", "index": "range", "rows": r}
+            # repeated index labels together with rows outside the window (an in-window row shares its label with an outside row)
+            for ix, r in itertools.product(NONUNIQUE, ("lead400", "both", "trail400")):
+                yield {"crop": ck, "perm": list(ident), "extra": "none", "index": ix, "rows": r}
             # a few combined transformations
             for p, e, ix, r in [(perms[37], "front", "shift1000", "both"), (perms[101], "middle", "date", "lead400"), (perms[119], "end", "strings", "trail400")]:
                 yield {"crop": ck, "perm": list(p), "extra": e, "index": ix, "rows": r}
@@ -243,6 +247,12 @@ def transform(df, scn, spec):
         d.index = [f"r{i}" for i in range(len(d))]
     elif ix == "date":
         d.index = pd.DatetimeIndex(d["Date"].values)
+    elif ix == "restart_yearly":
+        d.index = [int(x) - 1 for x in pd.DatetimeIndex(d["Date"].values).dayofyear]
+    elif ix == "constant":
+        d.index = [17] * len(d)
+    elif ix == "concat31":
+        d.index = list(range(min(31, len(d)))) + list(range(max(0, len(d) - 31)))
     return d
 
 
@@ -351,7 +361,7 @@ def run(scn):
 def describe(tier):
     return {
         "rule": "ALL 120 permutations of the five required columns; unrelated extra columns at the front / middle / end, and one with NaN gaps; index {RangeIndex, shifted by 1000, reversed labels, "
-                "string labels, Date index}; 400 extra leading / trailing rows / both, also with a gap of missing days, a duplicated row or dropped-but-not-re-indexed rows outside the window; " + ("each factor alone against the identity plus three combined cases" if tier == "quick" else "the FULL product (120 x 5 x 5 x 8 = 24000 tables per crop; every 12th permutation for the two extra crop kinds)")
+                "string labels, Date index}; 400 extra leading / trailing rows / both, also with a gap of missing days, a duplicated row or dropped-but-not-re-indexed rows outside the window; " + ("each factor alone against the identity plus three combined cases" if tier == "quick" else "the FULL product (120 x 6 x 8 x 8 = 46080 tables per crop; every 12th permutation for the two extra crop kinds)")
                 + "; x {calendar-day crop with threshold irrigation; thermal-time crop started before / on its planting date; calendar crop converted to thermal time (SwitchGDD=1)} over 2 seasons. "
                 "Oracle: all four tables bitwise equal to the run fed with the canonical table; plus a by-name oracle: for a thermal crop under degree-day methods 1-3 and a word with nights below the base temperature, the thermal calendar of EVERY season and the daily degree days must equal a reference computed from the columns named MinTemp/MaxTemp on the dates concerned; after the run the model's weather matrix must still hold, row by row, the record carrying that row's date; and the last of three seasons must be bitwise equal to a run of the same table started on that season's planting date (same dates at another row offset).",
         "bound": "120 permutations complete; " + ("factors alone" if tier == "quick" else "full product 120 x 5 x 5 x 8") + " x 2 crops",
